@@ -880,7 +880,8 @@ Qed.
 (* ================================================================ exceptions: operations under a failure schedule *)
 (* fs: one boolean per fallible step reached, in program order (true = that step throws).  Fallible steps:
    the allocations of ArrayBucket::AddBackCrt (add_back_f), "placing a new key in mHashMap" (hash table growth / key
-   copy: one step, strong guarantee of HashMap::AddCrt assumed - C04), the allocation of Array::Shrink in RemoveBack
+   copy: one step; the strong guarantee of HashMap::AddCrt is ASSUMED here (it is property C04's subject), i.e. a failure of that step
+   returns the unchanged state by definition), the allocation of Array::Shrink in RemoveBack
    (swallowed), and mHashMap.Remove in RemoveKey (key relocation may throw -> roll-back, lines 1100-1117).
    Result: state, threw?, remaining schedule. *)
 Definition step1f (M : Z) (m : mm) (o : op) (fs : list bool) : mm * bool * list bool :=
